@@ -171,7 +171,8 @@ class Orbital(object):
         # Propagate backwards to ascending node
         dt = np.timedelta64(10, "m")
 
-        t_old = np.datetime64(_get_tz_unaware_utctime(utc_time))
+        # at least microsecond resolution, so that halving the interval below cannot reach zero
+        t_old = np.datetime64(_get_tz_unaware_utctime(utc_time)) + np.timedelta64(0, "us")
         t_new = t_old - dt
         pos0, vel0 = self.get_position(t_old, normalize=False)
         pos1, vel1 = self.get_position(t_new, normalize=False)
